@@ -44,6 +44,13 @@ def MAXFAIL(tier):
     return 1 if tier == "quick" else 2
 
 
+def FAILMODE(tier, n):
+    """which precondition may be the failing one (see fail_options)"""
+    if tier == "quick":
+        return "ends"
+    return "all" if n < NBOXES(tier) else "ends"
+
+
 def MAXCYCLES(tier):
     return 3
 
@@ -53,17 +60,21 @@ def BOUND(tier):
 
 
 def RULE(tier):
+    which = ("the failing precondition is the first preact of the top-most box to be entered or the last preact of the bottom-most one"
+             if tier == "quick" else
+             "the failing precondition is either preact of any one box to be entered (forests of %d boxes: first preact of the top-most "
+             "or last preact of the bottom-most box to be entered)" % NBOXES(tier))
     return ("every ordered box forest with 1..%d boxes and depth <= %d (sibling order matters: the first under is the primary under) "
             "x every box as first box x every history of 0..%d cycles followed by the end flag, where a cycle is 'no goact fires' or "
             "(a box of the ACTIVE pile whose goact fires, any destination box: sibling, cousin, ancestor, descendant, self, other tree) "
-            "with all preconditions met, or with exactly one precondition (either of the two preacts of any one box that has to be "
-            "entered) failing; at most %d failing precondition(s) per history (the deviation bound; everything else is the full "
-            "product); plus every single failing precondition at the very first entry. Each history is one execution of the real "
-            "Boxer.run generator on freshly built boxes. Per cycle the observed exacts/rexacts/renacts/enacts trace must equal the "
-            "reference computed from active pile P and destination pile Q; per box and context the two acts run in declaration order; "
-            "a failed precondition leaves the trace empty and the active box unchanged; at the end every box of the active pile exits "
-            "exactly once bottom-up. Histories are distinct by construction (prefix tree of cycles)."
-            % (NBOXES(tier), MAXDEPTH, MAXCYCLES(tier), MAXFAIL(tier)))
+            "with all preconditions met or with one precondition failing; at most %d failing precondition(s) per history (the deviation "
+            "bound; %s; everything else is the full product); plus every single failing precondition at the very first entry. Each "
+            "history is one execution of the real Boxer.run generator on freshly built boxes. Per cycle the observed "
+            "exacts/rexacts/renacts/enacts trace must equal the reference computed from active pile P and destination pile Q; per box "
+            "and context the two acts run in declaration order; a failed precondition leaves the trace empty and the active box "
+            "unchanged; at the end every box of the active pile exits exactly once bottom-up. Histories are distinct by construction "
+            "(prefix tree of cycles)."
+            % (NBOXES(tier), MAXDEPTH, MAXCYCLES(tier), MAXFAIL(tier), which))
 
 
 def EXHAUSTIVE(tier):
@@ -172,25 +183,32 @@ def kind_of(par, active, fire, dest):
 # ----------------------------------------------------------------------------------------------------------------------
 # history enumeration (prefix tree over the reference state = active box)
 
-def cycle_options(par, active, allow_fail):
+def fail_options(enters, mode):
+    """which single precondition fails: mode 'all' = either preact of any box that has to be entered; mode 'ends' = the first
+    preact of the top-most such box or the last preact of the bottom-most one"""
+    if mode == "all":
+        return [(fb, fi) for fb in enters for fi in range(NACTS)]
+    return [(enters[0], 0), (enters[-1], NACTS - 1)]
+
+
+def cycle_options(par, active, allow_fail, mode):
     """[(cycle, next active box, failing preconditions used)]"""
     opts = [(NONE, active, 0)]
     for fire in ref_pile(par, active):
         for dest in range(len(par)):
             opts.append(((fire, dest, -1, -1), dest, 0))
             if allow_fail:
-                for fb in ref_transition(par, active, dest)["en"]:
-                    for fi in range(NACTS):
-                        opts.append(((fire, dest, fb, fi), active, 1))
+                for fb, fi in fail_options(ref_transition(par, active, dest)["en"], mode):
+                    opts.append(((fire, dest, fb, fi), active, 1))
     return opts
 
 
-def histories(par, first, maxcyc, maxfail, shard=None):
+def histories(par, first, maxcyc, maxfail, mode="all", shard=None):
     def rec(active, depth, fails):
         yield []
         if depth == maxcyc:
             return
-        opts = cycle_options(par, active, fails < maxfail)
+        opts = cycle_options(par, active, fails < maxfail, mode)
         if depth == 0 and shard is not None:
             opts = [o for j, o in enumerate(opts) if j % shard[1] == shard[0]]
         for cyc, nxt, df in opts:
@@ -336,28 +354,42 @@ CLAUSES = dict(
 )
 
 
-def compare(log, exp, site, stage, where, fail=(-1, -1)):
-    """violations of one cycle: observed trace against the expected boxes per phase; `where` is a thunk (only violations pay for text)"""
+class Lazy:
+    """violation text that is only formatted when somebody wants to read it (most cases repeat a key already recorded)"""
+    __slots__ = ("fn",)
+
+    def __init__(self, fn):
+        self.fn = fn
+
+    def __str__(self):
+        return self.fn()
+
+
+def compare(log, exp, site, stage, where, fail=(-1, -1), off=False):
+    """violations of one cycle: observed trace against the expected boxes per phase; `where` is a thunk; `off` = the active pile
+    is not the firing box's own (primary-under) pile, a class of cases that gets its own keys"""
+    sfx = ":active-pile-off-primary" if off else ""
     got, bad, mixed = digest(log, fail)
     v = []
+    log = list(log)
     for ctx in sorted(set(bad)):
-        v.append(("declaration-order:%s:%s" % (site, ctx),
-                  "%s: %s acts of a box not run in declaration order: %r" % (where(), ctx, [e for e in log if e[1] == ctx])))
+        v.append(("declaration-order:%s:%s" % (site, ctx), Lazy(
+            lambda ctx=ctx: "%s: %s acts of a box not run in declaration order: %r" % (where(), ctx, [e for e in log if e[1] == ctx]))))
     if stage == "failed":
         ran = [ctx for ctx in PHASES if got[ctx]]
         if ran:
-            v.append(("failed-precondition:%s:ran-%s" % (site, "+".join(ran)),
-                      "%s: precondition #%d of b%d fails, yet %s" % (where(), fail[1], fail[0],
-                                                                      "; ".join("%s acts of %s ran" % (c, names(got[c])) for c in ran))))
+            v.append(("failed-precondition:%s:ran-%s%s" % (site, "+".join(ran), sfx), Lazy(
+                lambda: "%s: precondition #%d of b%d fails, yet %s" % (
+                    where(), fail[1], fail[0], "; ".join("%s acts of %s ran" % (c, names(got[c])) for c in ran)))))
         return v
     clause = CLAUSES[stage]
     for ctx in PHASES:
         if got[ctx] != exp[ctx]:
-            v.append(("%s:%s:%s" % (clause[ctx], site, mismatch(got[ctx], exp[ctx])),
-                      "%s: %s acts ran for %s, documented order is %s" % (where(), ctx, names(got[ctx]), names(exp[ctx]))))
+            v.append(("%s:%s:%s%s" % (clause[ctx], site, mismatch(got[ctx], exp[ctx]), sfx), Lazy(
+                lambda ctx=ctx: "%s: %s acts ran for %s, documented order is %s" % (where(), ctx, names(got[ctx]), names(exp[ctx])))))
     if mixed:
-        v.append(("phase-order:%s" % site, "%s: phases interleave: %r (documented: exits, re-exits, re-enters, enters)"
-                  % (where(), [c for _, c, _ in log if c in RANK])))
+        v.append(("phase-order:%s" % site, Lazy(
+            lambda: "%s: phases interleave: %r (documented: exits, re-exits, re-enters, enters)" % (where(), [c for _, c, _ in log if c in RANK]))))
     return v
 
 
@@ -418,6 +450,7 @@ def execute(par, first, hist, world=None):
         w.log = []
         tyme += 1.0
         w.fire, w.dest, w.fail = fire, (w.boxes[dest] if dest >= 0 else None), (fb, fi)
+        off = False
         if fire < 0:
             stage, exp, nxt = "none", NOTHING, model
 
@@ -425,9 +458,9 @@ def execute(par, first, hist, world=None):
                 return "%s, history %r, cycle %d without transition (active b%d)" % (desc(), hist[:n], n + 1, model)
         else:
             kinds.append(kind_of(par, model, fire, dest) + ("+fail" if fb >= 0 else ""))
+            off = ref_pile(par, fire) != ref_pile(par, model)
 
-            def where(n=n, model=model, fire=fire, dest=dest):
-                off = ref_pile(par, fire) != ref_pile(par, model)
+            def where(n=n, model=model, fire=fire, dest=dest, off=off):
                 return ("%s, history %r, cycle %d: active pile %s, goact of b%d fires to b%d (%s%s)"
                         % (desc(), hist[:n], n + 1, names(ref_pile(par, model)), fire, dest, kind_of(par, model, fire, dest),
                            "; the active pile is not the firing box's own primary pile" if off else ""))
@@ -441,10 +474,10 @@ def execute(par, first, hist, world=None):
         if r == "stop":
             viols.append(("ended-early:Boxer.run:cycle", "%s: run() returned without the end flag" % where()))
             return viols, tuple(obs), kinds
-        viols += compare(w.log, exp, "Boxer.run", stage, where, fail=(fb, fi))
+        viols += compare(w.log, exp, "Boxer.run", stage, where, fail=(fb, fi), off=off)
         obs.append(tuple(w.log))
         if w.active() != nxt:
-            viols.append(("active-box:Boxer.run:after-%s" % stage, "%s: active box is %r, expected b%d" % (where(), w.boxer.box, nxt)))
+            viols.append(("active-box:Boxer.run:after-%s%s" % (stage, ":active-pile-off-primary" if off else ""), "%s: active box is %r, expected b%d" % (where(), w.boxer.box, nxt)))
             gen.close()
             return viols, tuple(obs), kinds   # later cycles were enumerated for another state
         model = nxt
@@ -474,7 +507,7 @@ def jobs(tier):
         for par in forests(n):
             for first in range(n):
                 if n == nmax and tier != "quick":
-                    js += [(par, first, ("part", k, 4)) for k in range(4)]
+                    js += [(par, first, ("part", k, 8)) for k in range(8)]
                 elif n == nmax:
                     js += [(par, first, ("part", k, 2)) for k in range(2)]
                 else:
@@ -496,17 +529,25 @@ def run_job(job, tier, seed):
     world = World(par)
     edges, kindcount = set(), {}
     ncase = 0
-    for hist in histories(par, first, MAXCYCLES(tier), MAXFAIL(tier), shard=(k, nparts)):
+    for hist in histories(par, first, MAXCYCLES(tier), MAXFAIL(tier), FAILMODE(tier, len(par)), shard=(k, nparts)):
         viols, obs, kinds = execute(par, first, hist, world)
         ncase += 1
         for kd in kinds:
             kindcount[kd] = kindcount.get(kd, 0) + 1
-        if viols or ncase % 500 == 1:
+        size = size_of(par, hist)
+        news = []       # violations whose key is new in this job or whose counterexample is smaller than the recorded one
+        for key, msg in viols:
+            v = acc.r.violations.get(key)
+            if v is None or (size, len(hist)) < (v["ndev"], len(v["choices"])):
+                news.append((key, msg))
+            else:
+                v["count"] += 1
+        if news or ncase % 200 == 1:
             acc.case(hist, obs, (), sample=dict(forest=show(par), first="b%d" % first, history=hist, last_cycle_trace=list(obs[-1])[-12:]))
-            for key, msg in viols:
-                acc.r.add_violation(key, msg, job, hist, size_of(par, hist))
+            for key, msg in news:
+                acc.r.add_violation(key, str(msg), job, hist, size)
         else:
-            acc.bulk(1, 1)
+            acc.bulk(1, 1)      # distinct by construction (prefix tree); its trace is not hashed
         # reference state graph: (forest, active box) --cycle--> (forest, active box)
         active = first
         for cyc in hist:
@@ -526,7 +567,7 @@ def run_job(job, tier, seed):
 def replay(job, case):
     par, first = tuple(job[0]), int(job[1])
     hist = [tuple(int(x) for x in c) for c in case]
-    return execute(par, first, hist)[0]
+    return [(key, str(msg)) for key, msg in execute(par, first, hist)[0]]
 
 
 def finish(total, tier):
